@@ -8,6 +8,7 @@
    transports' 4096-octet reads are a special case). *)
 From NC Require Import Model.Base Model.Utf8 Model.Framing10 Model.Framing11 Spec.RefFraming.
 From NC Require Import Proofs.ListFacts Proofs.Utf8Facts Proofs.Framing10Proofs Proofs.Framing11Proofs Proofs.FramingProofs.
+From NC Require Import Model.JunosParse Proofs.JunosParseProofs Proofs.HandoverProofs.
 
 (* Refinement, 1.0: for every segmentation, read by read, the parser produces exactly the events
    the reference automaton produces while it consumes the same octets one at a time: nothing is
@@ -98,3 +99,89 @@ Example C01_ex_run10 :
   events feed10 init10 (ex_cut (enc10 [ex_m1; ex_m2])) = [Deliver ex_m1; Deliver [240; 159; 152; 128]] /\
   events feed10 init10 (map (fun x => [x]) (enc10 [ex_m1; ex_m2])) = [Deliver ex_m1; Deliver [240; 159; 152; 128]].
 Proof. vm_compute. split; reflexivity. Qed.
+
+(* ---------------- the session's parser is the Junos streaming parser (device_params use_filter, 1.0 framing) ----------------
+   Model: Model/JunosParse.v (JunosXMLParser.parse, DefaultXMLParser._parse10 after the switch to DOM parsing and its branch
+   `type(self._session.parser) != DefaultXMLParser: self._session.parser.parse(remaining)`, SAXParserHandler.callback), tied
+   to the code by C18 and by C01's Junos cases.  [W] is the session side, [X] expat + the SAX handler of one reply, both
+   arbitrary.  A message is [handed] when, in every state of the session side, the streaming parser of a new reply signals the
+   switch to DOM parsing before it has a root and before it wrote anything (a <notification>, a reply to a request without
+   filter) and dispatching it reinstalls the streaming parser.
+   For every list of such messages (each valid as a 1.0 frame: [clean10]), every incomplete message [tail] after the last
+   terminator and EVERY cut of these octets into reads: exactly one dispatch per message, in order, each the octets of its
+   frame without the leading ASCII white space (Session._dispatch_message gets it decoded and stripped); nothing is
+   dispatched for [tail] (no terminator yet), nothing that follows a terminator is lost. *)
+Theorem C01_handover_delivery :
+  forall (W X : Type) (xnew : W -> X) (xstep : W -> X -> N -> xres X) (xrooted : X -> bool)
+         (dispatch : W -> bool -> bytes -> dres W),
+    (forall w x c x' o, xstep w x c = XOk x' o -> xrooted x = true -> xrooted x' = true) ->
+    (forall w, xrooted (xnew w) = false) ->
+    forall (msgs : list bytes) (tail : bytes) (reads : list bytes) (w : W),
+      Forall clean10 msgs -> Forall (handed W X xnew xstep xrooted dispatch) msgs -> find_sub delim10 tail = None ->
+      reads <> [] -> concat reads = enc10 msgs ++ tail ->
+      outs (JunosParse.run W X xnew xstep xrooted dispatch (JunosParse.init W X xnew w) reads) =
+      map (fun m => (false, blstrip m)) msgs.
+Proof. exact handover_delivery. Qed.
+Print Assumptions C01_handover_delivery.
+
+(* The hand-over itself: after the reads the session is exactly a NEW streaming parser - nothing held back, no head, no
+   output - that was given, as one read and unchanged, the octets following the last terminator (when they are not blank:
+   `if len(remaining.strip()) > 0`). *)
+Theorem C01_handover_next :
+  forall (W X : Type) (xnew : W -> X) (xstep : W -> X -> N -> xres X) (xrooted : X -> bool)
+         (dispatch : W -> bool -> bytes -> dres W),
+    (forall w x c x' o, xstep w x c = XOk x' o -> xrooted x = true -> xrooted x' = true) ->
+    (forall w, xrooted (xnew w) = false) ->
+    forall (msgs : list bytes) (tail : bytes) (reads : list bytes) (w : W),
+      msgs <> [] -> Forall clean10 msgs -> Forall (handed W X xnew xstep xrooted dispatch) msgs ->
+      find_sub delim10 tail = None -> reads <> [] -> concat reads = enc10 msgs ++ tail ->
+      exists w' f',
+        JunosParse.run W X xnew xstep xrooted dispatch (JunosParse.init W X xnew w) reads =
+        let fresh := JunosParse.fresh W X xnew w' (map (fun m => (false, blstrip m)) msgs) f' in
+        if bblank tail then fresh else JunosParse.parse W X xnew xstep xrooted dispatch fresh tail.
+Proof. exact handover_next. Qed.
+Print Assumptions C01_handover_next.
+
+(* ... and these dispatches are the deliveries of the reference automaton of C01 on the same octets. *)
+Theorem C01_handover_ref :
+  forall (W X : Type) (xnew : W -> X) (xstep : W -> X -> N -> xres X) (xrooted : X -> bool)
+         (dispatch : W -> bool -> bytes -> dres W),
+    (forall w x c x' o, xstep w x c = XOk x' o -> xrooted x = true -> xrooted x' = true) ->
+    (forall w, xrooted (xnew w) = false) ->
+    forall (msgs reads : list bytes) (w : W),
+      Forall clean10 msgs -> Forall (handed W X xnew xstep xrooted dispatch) msgs ->
+      Forall (fun m => utf8_valid m = true) msgs -> reads <> [] -> concat reads = enc10 msgs ->
+      map (fun p => Deliver (strip (snd p)))
+          (outs (JunosParse.run W X xnew xstep xrooted dispatch (JunosParse.init W X xnew w) reads)) =
+      snd (ref10 rinit10 (concat reads)).
+Proof. exact handover_ref. Qed.
+Print Assumptions C01_handover_ref.
+
+(* non-vacuity: a machine that signals the switch at the first ">" (the end of the root's start tag), a session side that
+   counts the dispatches and reinstalls the streaming parser; two messages (é inside the first, white space around the
+   second), an incomplete third one; reads cut inside the first start tag, the character and both terminators *)
+Definition hx_step (w : nat) (x : unit) (c : N) : xres unit := if N.eqb c 62 then XSwitch [] else XOk tt [].
+Definition hx_dispatch (w : nat) (via_sax : bool) (m : bytes) : dres nat := DOk (S w) true.
+Definition ex_h2 : bytes := [32; 60; 101; 47; 62; 10].                          (* " <e/>\n" *)
+Definition ex_tail : bytes := [10; 60; 110; 111; 116; 105; 93; 93; 62; 93].      (* "\n<noti]]>]" *)
+Definition hx_run := JunosParse.run nat unit (fun _ => tt) hx_step (fun _ => false) hx_dispatch.
+Definition hx_init := JunosParse.init nat unit (fun _ => tt) 0%nat.
+
+Example C01_ex_handover_hyp :
+  Forall clean10 [ex_m1; ex_h2] /\
+  Forall (handed nat unit (fun _ => tt) hx_step (fun _ => false) hx_dispatch) [ex_m1; ex_h2] /\
+  find_sub delim10 ex_tail = None /\
+  concat (ex_cut (enc10 [ex_m1; ex_h2] ++ ex_tail)) = enc10 [ex_m1; ex_h2] ++ ex_tail.
+Proof.
+  repeat split; repeat constructor;
+    try (unfold clean10; apply find_none; vm_compute; reflexivity);
+    try (intros w; eexists; vm_compute; reflexivity).
+Qed.
+
+Example C01_ex_handover_run :
+  outs (hx_run hx_init (ex_cut (enc10 [ex_m1; ex_h2] ++ ex_tail))) = [(false, ex_m1); (false, [60; 101; 47; 62; 10])] /\
+  outs (hx_run hx_init (map (fun x => [x]) (enc10 [ex_m1; ex_h2] ++ ex_tail))) = [(false, ex_m1); (false, [60; 101; 47; 62; 10])] /\
+  map (fun r => length (outs (hx_run hx_init r)))
+      [[firstn 14 (enc10 [ex_m1; ex_h2])]; [firstn 15 (enc10 [ex_m1; ex_h2])]; [firstn 26 (enc10 [ex_m1; ex_h2])];
+       [firstn 27 (enc10 [ex_m1; ex_h2])]] = [0; 1; 1; 2]%nat.
+Proof. vm_compute. repeat split; reflexivity. Qed.
